@@ -65,9 +65,16 @@ impl<'a> PartialEqSpecImpl<&'a Str> for Str {
 }
 /// lexicographic order on strings (`Ord for String`): uninterpreted total order
 pub uninterp spec fn str_cmp(a: Seq<char>, b: Seq<char>) -> core::cmp::Ordering;
+pub uninterp spec fn str_lower(s: Seq<char>) -> Seq<char>;
+pub uninterp spec fn str_upper(s: Seq<char>) -> Seq<char>;
 impl Str {
     #[verifier::external_body]
     pub fn cmp(&self, o: &Str) -> (r: core::cmp::Ordering) ensures r == str_cmp(self@, o@) { unimplemented!() }
+    /// `str::to_lowercase` / `to_uppercase`: uninterpreted functions of the text
+    #[verifier::external_body]
+    pub fn to_lowercase(&self) -> (r: Str) ensures r@ == str_lower(self@) { unimplemented!() }
+    #[verifier::external_body]
+    pub fn to_uppercase(&self) -> (r: Str) ensures r@ == str_upper(self@) { unimplemented!() }
     /// string literal
     #[verifier::external_body]
     pub fn lit(s: &'static str) -> (r: Str) ensures r@ == s@ { unimplemented!() }
@@ -192,6 +199,10 @@ pub trait UnwrapOrDefaultExt<T>: Sized { fn unwrap_or_default_(self) -> T; }
 impl<E> UnwrapOrDefaultExt<Uint128> for Result<Uint128, E> {
     #[verifier::external_body]
     fn unwrap_or_default_(self) -> (r: Uint128) ensures match self { Ok(v) => r == v, Err(_) => r@ == 0 } { unimplemented!() }
+}
+impl UnwrapOrDefaultExt<Uint128> for Option<Uint128> {
+    #[verifier::external_body]
+    fn unwrap_or_default_(self) -> (r: Uint128) ensures match self { Some(v) => r == v, None => r@ == 0 } { unimplemented!() }
 }
 impl UnwrapOrDefaultExt<u64> for Option<u64> {
     #[verifier::external_body]
